@@ -110,12 +110,16 @@ def check_rw():
 # {{{ fusion
 
 NAMES = ["s0", "s1", "s2"]
+# id alphabets; the later ones contain names a fresh-id generator would derive from another id of the alphabet
+# (what the ids of an already fused stream look like)
+NAME_SETS = [["s0", "s1", "s2"], ["s", "s_0", "t"], ["s", "s_0", "s_1"], ["s0", "s0_0", "s0_1"]]
 
 
-def check_fuse(tier, twin=False):
+def check_fuse(tier, twin=False, names_i=0):
     from pymbolic.imperative.statement import Assignment
     from pymbolic.imperative.transform import fuse_statement_streams_with_unique_ids
-    res = ItemResult(item="fuse streams", sample={"streams": "2 + 3 statements", "id_alphabet": NAMES})
+    NAMES = NAME_SETS[names_i]
+    res = ItemResult(item=f"fuse streams ids={NAMES}", sample={"streams": "2 + 3 statements", "id_alphabet": NAMES})
     # symbolic choices: ids of the two a-statements, permutation of ids for b, dependency bits inside b and inside a
     a_ids = [z3.Int("a0"), z3.Int("a1")]
     b_perm = z3.Int("bperm")
@@ -395,7 +399,7 @@ def check_dot(n, order_i, tier, twin=False, chain=False):
 
 
 def items(tier):
-    out = [("rw",), ("fuse",)]
+    out = [("rw",), ("fuse",)] + [("fuse", i) for i in range(1, len(NAME_SETS))]
     shapes = [((0, 1), (0, 1)), ((1,), (1, 2)), ((0, 2), (1,)), ((1, 0), (2, 3)), ((2,), (0,)), ((0,), (1,)), ((1,), (1,))]
     out += [("disambiguate", s) for s in shapes]
     for li in (["y_0", "z_0"] if tier == "quick" else ["y_0", "z_0", "y_1", "z_1", "z0", "_y"]):
@@ -420,7 +424,7 @@ def check_item(item, tier):
     if k == "rw":
         return check_rw()
     if k == "fuse":
-        return check_fuse(tier)
+        return check_fuse(tier, names_i=item[1] if len(item) > 1 else 0)
     if k == "disambiguate":
         return check_disambiguate(item[1], tier, *item[2:])
     if k == "dot":
